@@ -1,6 +1,17 @@
+import os
 from props.worldcommon import WorldSpec
+MONS = ["c01","c03","c04","c06","c07","c08","c09","c10","c11","c15","c16","c17","c18"]
 class W00(WorldSpec):
     pid = "W00"
-    coq_targets = ["theories/Corr/WorldCorr.vo"]
-    n_quick = 200
+    coq_targets = ["theories/Spec/WorldSpec.vo"]
+    n_quick = int(os.environ.get("W00_N", "100"))
+    profile = os.environ.get("W00_PROFILE", "mixed")
+    @property
+    def footer(self):
+        mons = os.environ.get("W00_MONS", ",".join(MONS)).split(",")
+        s = "Definition mism := Eval vm_compute in wids_where wmismatch cases.\nPrint mism.\n"
+        for m in mons:
+            s += "Definition v%s := Eval vm_compute in wids_where violates_%s cases.\nPrint v%s.\n" % (m, m, m)
+        s += "Definition viol := Eval vm_compute in wids_where (fun c => %s) cases.\nPrint viol.\n" % " || ".join("violates_%s c" % m for m in mons)
+        return s
 SPEC = W00()
